@@ -23,7 +23,7 @@ INFO = {
     ],
     "bounds": {
         "quick": {"jobs": "<=3 (chain, fork, join, independent)", "schedule_choice_points": 6, "embedding_positions": 14, "embedding_depth": "<=3"},
-        "thorough": {"jobs": "<=4 (adds diamond, chain4, join4)", "schedule_choice_points": 10, "embedding_positions": 14},
+        "thorough": {"jobs": "<=4 (adds diamond, chain4, join4)", "schedule_choice_points": 5, "embedding_positions": 14},
     },
     "stubs": schedlib.STUBS,
     "symbolic_data": True,
@@ -141,7 +141,7 @@ def ordering(
 
 def conditions(tier):
     conds = [{"name": "collect", "func": "collect", "shard": {}, "timeout": 300}]
-    K = 4 if tier == "quick" else 7
+    K = 4 if tier == "quick" else 5
     tmo = 600 if tier == "quick" else 3000
     shapes = ["chain2", "chain3", "fork3", "join3", "mixed3"] if tier == "quick" else ["chain2", "chain3", "fork3", "join3", "mixed3", "diamond4", "chain4", "join4", "two2"]
     for sh in shapes:
@@ -152,7 +152,7 @@ def conditions(tier):
     out = []
     for c in conds:
         if c["shard"].get("shape") in heavy:
-            out.extend(schedlib.with_prefixes(c, 2 if tier == "quick" else 3))
+            out.extend(schedlib.with_prefixes(c, 2))
         else:
             out.append(c)
     return out
